@@ -1,6 +1,7 @@
 #![allow(dead_code)]
 //! tvh — the runtime-monitoring harness for Keats/tera. One sub-command per property; see /verif/DESIGN.md.
 mod core;
+mod miri_suite;
 mod model;
 mod monitors;
 mod progs;
@@ -17,6 +18,14 @@ fn usage() -> ! {
 
 fn main() {
     let args: Vec<String> = std::env::args().collect();
+    if args.len() >= 3 && args[1] == "miri" {
+        // tvh miri <ID> <seed> <ops>: reduced workloads for the Miri interpreter (no files, clocks, rlimits or watchdog)
+        let seed: u64 = args.get(3).and_then(|s| s.parse().ok()).unwrap_or(1);
+        let ops: usize = args.get(4).and_then(|s| s.parse().ok()).unwrap_or(50);
+        let done = miri_suite::run(&args[2], seed, ops);
+        println!("MIRI-SUITE {} seed={seed} operations={done}", args[2]);
+        return;
+    }
     if args.len() < 3 || args[1] != "run" {
         usage();
     }
